@@ -100,7 +100,9 @@ def sources_for(prop):
         # comparison-specific violations only: seen under S-rel / S-prod and not under string inequality
         rel_only = lambda G: 'ident' not in G.get('modes', [])
         return [('H-EVAL', lambda G: G['prop'] in ('C03', 'C04', 'C06', 'C07', 'C11', 'C16') and rel_only(G), 'group'),
-                ('H-ORDER', lambda G: G['prop'] == 'C14' and rel_only(G), 'group')]
+                ('H-ORDER', lambda G: G['prop'] == 'C14' and rel_only(G), 'group'),
+                # renamed multi-output upstreams under the production convention (comparison relation + last==current shortcut)
+                ('H-HIST', lambda G: G['prop'] in ('C03', 'C04', 'C06', 'C07', 'C11', 'C16') and rel_only(G), 'group')]
     return []
 
 
